@@ -545,16 +545,20 @@ def scan_assumptions(cfg):
                     files.add(os.path.join(VDIR, json.load(open(os.path.join(VDIR, g["spec"])))[extra]))
                 except Exception:
                     pass
-    pats = [r"kani::assume\(", r"#\[kani::stub\(", r"stub_verified", r"\bassume\(", r"\badmit\(",
-            r"external_body", r"assume_specification", r"\bunsafe\b", r"external_type_specification"]
+    pats = [("kani::assume (harness preconditions)", r"kani::assume\("),
+            ("kani::stub (callee replaced by contract stub)", r"#\[kani::stub\("),
+            ("verus assume/admit", r"(?<![:\w])assume\(|\badmit\("),
+            ("verus external_body (trusted)", r"external_body"),
+            ("verus assume_specification", r"assume_specification"),
+            ("unsafe blocks in contract code", r"\bunsafe\b")]
     for f in sorted(files):
         if not os.path.exists(f):
             continue
         txt = open(f).read()
-        for p in pats:
+        for label, p in pats:
             n = len(re.findall(p, txt))
             if n:
-                hits.append("%s: %d x %s" % (os.path.relpath(f, VERIF), n, p.replace("\\", "")))
+                hits.append("%s: %d x %s" % (os.path.relpath(f, VERIF), n, label))
     return hits
 
 
@@ -838,7 +842,7 @@ def do_check(pid, cfg, tier, seed, ws, injected, args, t0):
             "rule": "evaluations = verification conditions reported by the back ends on this run (CBMC checks: contract assertions, overflow, bounds, pointer validity, unreachable!, unwinding assertions; Verus: functions verified). distinct_nontrivial = distinct named contract clauses 'Cxx/<function>/<clause>' in the contract modules that were run.",
             "checker_cmd": " && ".join(dict.fromkeys(cmds)) if cmds else "none",
             "trusted_base": cfg.get("trusted_base", []) + ["rustc/kani-compiler MIR->goto translation", "CBMC 6.11 + CaDiCaL/kissat", "Verus 0.2026.09.13 + Z3" if any(g["engine"] == "verus" for g in cfg["groups"]) else "—"],
-            "samples": (named_obl[:12] + samples)[:40] or ["none"],
+            "samples": (samples + named_obl[:12])[:40] or ["none"],
             "functions_under_contract": sorted(set(functions)),
             "contract_attributes_injected": injected,
             "groups": group_reports,
